@@ -10,7 +10,7 @@ from .common import sublists
 PROPERTY = 'C19'
 FUNCTIONS = ['evaluation.cm', 'evaluation.mae', 'evaluation.mse', 'evaluation.rmse', 'evaluation.rmspe', 'evaluation.accuracy',
              'evaluation.f1score', 'evaluation.mcc']
-BOUNDS = dict(quick='curves of n <= 4 points (concrete x, symbolic y), |K| <= 2 knee indices, |E| <= 2 expected points with symbolic coordinates, symbolic tolerance, '
+BOUNDS = dict(quick='confusion matrix: n <= 5 points, |K| <= 2 knee indices, |E| <= 3 expected points; error metrics: n <= 4, |K| <= 2, |E| <= 2; coordinates of the expected points and the tolerance symbolic, '
                     '4 strategies; accuracy/f1/mcc: confusion-matrix entries are symbolic non-negative reals (no size bound)',
               thorough='n <= 5, |K| <= 3, |E| <= 3; otherwise as quick')
 ASSUMPTIONS = ['exact real arithmetic (T1)', 'tolerance t >= 0', 'mcc only where its denominator is non-zero (as in the statement)',
@@ -23,10 +23,10 @@ def cases(tier, seed):
     q = tier == 'quick'
     out = [dict(fn='scores')]
     nmax, kmax, emax = (4, 2, 2) if q else (5, 3, 3)
-    for n in range(3, nmax + 1):
+    for n in range(3, 6):
         xs = [0, 1, 3, 4, 6][:n]
         for K in sublists(range(n), 1, kmax):
-            for ne in range(1, emax + 1):
+            for ne in range(1, 4):      # the greedy matching needs >= 3 expected points to revisit a knee (A, B, A)
                 if len(K) + ne > n:
                     continue
                 out.append(dict(fn='cm', n=n, xs=xs, K=K, ne=ne))
